@@ -456,6 +456,29 @@ func partC(rep *ev.Reporter, s *srvT) int64 {
 			rep.Count("C_string_backed_scalar_same_number", 1)
 		}
 	}
+	// an ID given as a JSON number (variable) or an integer literal arrives as that number's text
+	for _, in := range []string{"9007199254740993", "9007199254740992", "18014398509481985", "123", "-7", "9223372036854775807"} {
+		for form := 0; form < 2; form++ {
+			query, vars := fmt.Sprintf("{ xsc(id: %s) }", in), map[string]any(nil)
+			if form == 1 {
+				query, vars = "query($v: ID) { xsc(id: $v) }", map[string]any{"v": json.Number(in)}
+			}
+			got := s.srv.Run(context.Background(), &univ.Run{Plan: &p}, query, "", diffrun.CopyJSON(vars), 30*time.Second)
+			evals++
+			rep.Distinct("boundary_cases", fmt.Sprintf("%s|id-number|%s|%d", s.name, in, form))
+			recorded := ""
+			for _, e := range got.Events {
+				if e.Kind == "resolver" && e.Field == "xsc" {
+					recorded = extract(e.Args, "id")
+				}
+			}
+			if recorded != `"`+in+`"` {
+				rep.Violate("", map[string]any{"part": "C", "why": fmt.Sprintf("ID %s given as a number (form %d) reached the resolver as %s", in, form, recorded), "probe": s.name, "query": query, "variables": vars, "payload": payloadText(got)})
+				continue
+			}
+			rep.Count("C_id_number_same_text", 1)
+		}
+	}
 	// time / duration / uuid / map / any round trips through the server
 	for _, c := range []struct{ arg, lit, want string }{
 		{"t", `"2020-01-02T03:04:05.123456789Z"`, `"2020-01-02T03:04:05.123456789Z"`},
